@@ -42,7 +42,8 @@ RULE = (
     "graph (pickle of vars(tracker), aliasing included, dict-valued attributes ordered by key) after a conforming transition differs "
     "from the one the destination state's shortest history produces, the pair is a new state and every event is applied from it too "
     "(breadth-first, de-duplicated, per-shard cap EXT_CAP; 0 on a tracker without hidden state). H/stateless: every event sequence "
-    "of length 1..D over the stated alphabet is executed from a fresh tracker; the state before the last event, its answer and the "
+    "of length 1..D over the stated alphabet is executed from a fresh tracker (telecommands, reports and request IDs built by the "
+    "constructors with the last event alternately decoded, or - 'all-decoded' runs - all obtained by unpack()); the state before the last event, its answer and the "
     "state after it are compared with the table, and every result handed out earlier in the history must still have its completed "
     "flag and status object. A divergence is always reported at the first diverging event of the history (minimal replay). "
     "states = model states + table states (+ extended states); transitions = model edges + table transitions + probes + "
@@ -436,7 +437,7 @@ def run_events(rec, impl, prefix, last, decoded_last, view, exp_src, exp_dst, ex
     except Exception:  # noqa: BLE001 - the shorter history is a case of its own; name its first diverging event
         locate_divergence(rec, impl, prefix, decoded_prefix)
         return None
-    if view(v) != exp_src:
+    if exp_src is not None and view(v) != exp_src:
         rec.count("prefix_diverged")
         locate_divergence(rec, impl, prefix, decoded_prefix)
         return None
@@ -490,7 +491,8 @@ def check_edge(rec, impl, path, action, args, src_state, dst_state, decoded_last
         got = impl.abstract(v)
         return _diff_sig(got, dst_state), got, dst_state
 
-    return run_events(rec, impl, [t2h(a, g) for a, g in path], t2h(action, args), decoded_last, impl.view_h, (model_to_table(src_state, ntc), 0),
+    exp_src = (model_to_table(src_state, ntc), 0) if src_state is not None else None  # None: replay file written before the source state was recorded
+    return run_events(rec, impl, [t2h(a, g) for a, g in path], t2h(action, args), decoded_last, impl.view_h, exp_src,
                       (model_to_table(dst_state, ntc), 0), EXPECT[action], sig, case, state_sig)
 
 
@@ -816,7 +818,7 @@ def replay(case):
     impl = Impl(case["ntc"])
     if case["kind"] == "edge":
         path = tuple((a, tuple(g)) for a, g in case["path"])
-        check_edge(rec, impl, path[:-1], path[-1][0], path[-1][1], case["source_state"], case["expected_state"], case["decoded_last"])
+        check_edge(rec, impl, path[:-1], path[-1][0], path[-1][1], case.get("source_state"), case["expected_state"], case["decoded_last"])
     else:
         hist = tuple(tuple(e) for e in case["history"])
         check_hist(rec, impl, hist, table_run(hist[:-1], case["ntc"]), case.get("decoded_last", False), case.get("decoded_prefix", False))
